@@ -296,12 +296,20 @@ func (p *parser) scan() (tkn token.Token, literal string, idx file.Idx) { //noli
 					p.skipSingleLineComment()
 					continue
 				case '*':
+					// A comment that contains a line terminator counts as a
+					// LineTerminator (ECMA-262 5.1 - 7.4).
+					var newline bool
 					if p.mode&StoreComments != 0 {
-						comment := string(p.readMultiLineComment())
-						p.comments.AddComment(ast.NewComment(comment, idx))
-						continue
+						comment := p.readMultiLineComment()
+						newline = containsLineTerminator(comment)
+						p.comments.AddComment(ast.NewComment(string(comment), idx))
+					} else {
+						newline = p.skipMultiLineComment()
 					}
-					p.skipMultiLineComment()
+					if newline && p.insertSemicolon {
+						p.insertSemicolon = false
+						p.implicitSemicolon = true
+					}
 					continue
 				default:
 					// Could be division, could be RegExp literal
@@ -513,18 +521,31 @@ func (p *parser) skipSingleLineComment() {
 	}
 }
 
-func (p *parser) skipMultiLineComment() {
+func (p *parser) skipMultiLineComment() (newline bool) { //nolint:nonamedreturns
 	p.read()
 	for p.chr >= 0 {
 		chr := p.chr
+		if isLineTerminator(chr) {
+			newline = true
+		}
 		p.read()
 		if chr == '*' && p.chr == '/' {
 			p.read()
-			return
+			return newline
 		}
 	}
 
 	p.errorUnexpected(0, p.chr)
+	return newline
+}
+
+func containsLineTerminator(text []rune) bool {
+	for _, chr := range text {
+		if isLineTerminator(chr) {
+			return true
+		}
+	}
+	return false
 }
 
 func (p *parser) skipWhiteSpace() {
